@@ -24,8 +24,10 @@ VARIABLES tid,    \* index of the current trace
           hn,     \* history length per labware
           wl,     \* decoded records of the worklist so far
           live,   \* no operation of this trace has failed so far
-          cok     \* the composition chain is still within the supported arithmetic range
-vars == <<tid, l, vol, comp, hn, wl, live, cok>>
+          cok,    \* the composition chain is still within the supported arithmetic range
+          robv    \* the robot's own volumes: initial contents + every record executed so far (never re-synchronised
+                  \* with the twin while only tracked worklist operations happen)
+vars == <<tid, l, vol, comp, hn, wl, live, cok, robv>>
 
 HdrT(tr) == [dev |-> tr.dev, unitc |-> tr.unitc, millis |-> tr.millis, k |-> tr.k, wlmax |-> tr.wl.maxv, wlmaxc |-> tr.wl.maxc,
              autosplit |-> tr.wl.autosplit, diti |-> tr.wl.diti, lw |-> tr.lw]
@@ -115,6 +117,10 @@ Common(tr, T, ev) ==
        \A i \in 1..Len(ev.recs) : ev.recs[i].t \in {"A", "D"} => ev.recs[i].cents <= T.wlmaxc),
     Cl("C03.replay", F.robot /\ live /\ ev.op \in TrackedOps,
        Run(T, vol, TrackedComp(tr), ReplayRecs(T, ev)).err = ""),
+    \* the literal statement: replaying everything accumulated so far from the INITIAL contents stays within limits
+    \* (the robot state is carried through the trace independently of what the twin claims)
+    Cl("C03.replayall", F.robot /\ live /\ ev.op \in TrackedOps,
+       Run(T, robv, EmptyComp(tr), ReplayRecs(T, ev)).err = ""),
     Cl("C11.prefix", live /\ ev.out = "ok" /\ ev.op # "condense",
        \A k \in 1..NLw(tr) : post.hsame[k] >= hn[k] /\ post.hn[k] >= hn[k]),
     Cl("C11.newest", live /\ ev.out = "ok" /\ part # {} /\ ev.op \notin {"external", "rawemit"},
@@ -626,7 +632,7 @@ InitOf(t) == LET tr == Traces[t] IN
    comp |-> [k \in 1..NLw(tr) |-> [i \in 1..Len(tr.lw[k].init.comp) |-> Range(tr.lw[k].init.comp[i])]],
    hn |-> [k \in 1..NLw(tr) |-> tr.lw[k].init.hn]]
 
-Init == /\ tid = 0 /\ l = 0 /\ vol = <<>> /\ comp = <<>> /\ hn = <<>> /\ wl = <<>> /\ live = TRUE /\ cok = TRUE
+Init == /\ tid = 0 /\ l = 0 /\ vol = <<>> /\ comp = <<>> /\ hn = <<>> /\ wl = <<>> /\ live = TRUE /\ cok = TRUE /\ robv = <<>>
         /\ InitRegisters
 
 \* first step of a trace: judge the constructor observations, load the initial state
@@ -635,7 +641,7 @@ StartTrace ==
   /\ tid < Len(Traces)
   /\ LET t == tid + 1  tr == Traces[t]  s == InitOf(t) IN
      /\ Judge([tid |-> t, l |-> 0, id |-> tr.id, op |-> "init"], JudgeInit(tr))
-     /\ tid' = t /\ l' = 1 /\ vol' = s.vol /\ comp' = s.comp /\ hn' = s.hn /\ wl' = <<>> /\ live' = TRUE /\ cok' = TRUE
+     /\ tid' = t /\ l' = 1 /\ vol' = s.vol /\ comp' = s.comp /\ hn' = s.hn /\ wl' = <<>> /\ live' = TRUE /\ cok' = TRUE /\ robv' = s.vol
 
 Step ==
   /\ tid >= 1 /\ l <= Len(Traces[tid].events)
@@ -646,6 +652,9 @@ Step ==
      /\ wl' = IF ev.op = "enter" THEN <<>> ELSE wl \o ev.recs
      /\ live' = (live /\ ev.out = "ok" /\ ~Untracked(ev))
      /\ cok' = (cok /\ ev.cs)
+     /\ robv' = IF tr.flags.robot /\ live /\ ev.op \in TrackedOps
+                THEN LET rb == Run(T, robv, EmptyComp(tr), ReplayRecs(T, ev)) IN IF rb.err = "" THEN rb.vol ELSE robv
+                ELSE ev.post.vol     \* direct labware operations change the physical contents outside any worklist
 
 Next == StartTrace \/ Step
 Post == WriteVerdicts
